@@ -123,3 +123,47 @@ Proof.
   - apply cei_value_consistency.
 Qed.
 Print Assumptions c09_value_consistency.
+
+(* ------------------------------------------------------------------------ *)
+(* hand-written backward passes of custom_op.py (MathComp, any field F with  *)
+(* 2 <> 0; no real-number axioms)                                            *)
+(* ------------------------------------------------------------------------ *)
+Set Warnings "-notation-overridden,-ambiguous-paths,-redundant-canonical-projection".
+From mathcomp Require Import all_ssreflect all_algebra.
+From Verif Require Import model.CholBackward proofs.CholBackwardProofs.
+
+(* cholesky_factorization_backward is the adjoint of the differential of the Cholesky
+   map: for lower-triangular invertible L, every cotangent Lbar and every
+   lower-triangular perturbation dL (so that dA = dL L^T + L dL^T is the induced
+   perturbation of A = L L^T):  <Lbar, dL> = <Abar, dA>. *)
+Theorem c09_chol_backward_adjoint :
+  forall (F : fieldType) (n : nat) (L Lbar dL : 'M[F]_n),
+    (2%:R : F)%R != 0%R -> is_trig_mx L -> L \in unitmx -> is_trig_mx dL ->
+    inner Lbar dL = inner (chol_backward L Lbar) (dL *m L^T + L *m dL^T)%R.
+Proof. exact chol_backward_adjoint. Qed.
+Print Assumptions c09_chol_backward_adjoint.
+
+(* ... the returned Abar is symmetric, and every symmetric dA arises from some
+   lower-triangular dL, so the identity above fixes <Abar, dA> for all symmetric dA *)
+Theorem c09_chol_backward_symmetric :
+  forall (F : fieldType) (n : nat) (L Lbar : 'M[F]_n),
+    L \in unitmx -> ((chol_backward L Lbar)^T = chol_backward L Lbar)%R.
+Proof. exact chol_backward_sym. Qed.
+Print Assumptions c09_chol_backward_symmetric.
+
+Theorem c09_chol_differential_exists :
+  forall (F : fieldType) (n : nat) (L dA : 'M[F]_n),
+    (2%:R : F)%R != 0%R -> is_trig_mx L -> L \in unitmx -> (dA^T = dA)%R ->
+    exists dL, is_trig_mx dL /\ (dA = dL *m L^T + L *m dL^T)%R.
+Proof. exact chol_differential_exists. Qed.
+Print Assumptions c09_chol_differential_exists.
+
+(* AddJitterOp: the forward map (X, sigsq) |-> X + (sigsq + jitter) I is affine with
+   differential (dX, ds) |-> dX + ds I (jitter held fixed, as the code documents), and
+   AddJitterOp_vjp  g |-> (g, tr g)  is its adjoint *)
+Theorem c09_addjitter_vjp_adjoint :
+  forall (F : fieldType) (n : nat) (X G dX : 'M[F]_n) (s ds jit : F),
+    (addjitter (X + dX) (s + ds) jit - addjitter X s jit = dX + ds%:M)%R /\
+    (inner G (dX + ds%:M) = inner (addjitter_vjp G).1 dX + (addjitter_vjp G).2 * ds)%R.
+Proof. intros. split; [exact: addjitter_differential | exact: addjitter_vjp_adjoint]. Qed.
+Print Assumptions c09_addjitter_vjp_adjoint.
